@@ -204,7 +204,7 @@ func (h *Handle) decide(op, class, task string) string {
 		if !isTask {
 			// an engine call from a goroutine the scheduler does not know: its order
 			// relative to other calls is not decided by the PRNG
-			w.S.AddHazard()
+			w.S.AddHazard("untracked-engine-call:" + op + "/" + class + "/" + task)
 		} else {
 			// a task that had blocked outside a yield (scan waiting for its workers) and was
 			// woken by the token holder's last action: runs in the same step, by construction
